@@ -34,6 +34,8 @@ def handle : Handler
       | some (e, []) => showO (runI e) | _ => "bad-op"
   | "C" :: rest => match parse rest with
       | some (e, []) => showO (runC e) | _ => "bad-op"
+  | "S" :: rest => match parse rest with
+      | some (e, []) => (match spec e with | some o => "spec " ++ o.name | none => "spec none") | _ => "bad-op"
   | _ => "bad-op"
 
 end Cel.Drv.C02
